@@ -5,8 +5,11 @@ package main
 import (
 	"fmt"
 	"math"
+	"sort"
+	"sync"
 	"time"
 
+	"github.com/whatap/golib/util/hash"
 	"verif/harness/vh"
 )
 
@@ -396,6 +399,10 @@ func genRate(r *vh.Rng, seq *int) *hcase {
 		b.cfg(true, 7, r.PickInt([]int{1, 2, 10, 60, 0, -1}), "debug")
 	}
 	pool := []string{"AAAAAAAAAA-one", "AAAAAAAAAA-two", "AAAAAAAAAB", "AAAAAAAAA", "short", ""}
+	if full, _ := collisions(); len(full) > 0 {
+		g := full[r.Intn(len(full))]
+		pool = append(pool, g[0], g[1], g[0]+" with a tail", g[1]+" with a tail")
+	}
 	lastW := map[string]int64{}
 	n := 10 + r.Intn(40)
 	for i := 0; i < n; i++ {
@@ -578,6 +585,146 @@ func genRead(r *vh.Rng, seq *int) *hcase {
 			b.randLog()
 		}
 		b.randRead()
+	}
+	return c
+}
+
+
+// ---------------------------------------------------------------- colliding ids
+
+// The id cache hashes its keys with hash.HashStr (CRC-32) and reduces the value modulo the
+// table size (101, 203, 407, 815, 1631 as it grows).  Sequential or random ids practically
+// never share a full hash, so they are searched for: groups of distinct 10-byte ids with an
+// identical full hash (birthday search over generated names, deterministic), and groups that
+// share the bucket modulo 101 but have different full hashes.
+var (
+	collideOnce sync.Once
+	fullGroups  [][]string
+	modGroups   [][]string
+)
+
+func tableHash(s string) uint { return uint(hash.HashStr(s)) } // as StringLongLinkedMap.hash
+
+func collisions() ([][]string, [][]string) {
+	collideOnce.Do(func() {
+		byHash := map[uint][]string{}
+		for i := 0; i < 600000; i++ {
+			var name string
+			if i%2 == 0 {
+				name = fmt.Sprintf("WA-%07d", i)
+			} else {
+				name = fmt.Sprintf("id%08x", uint32(i)*2654435761)
+			}
+			h := tableHash(name)
+			byHash[h] = append(byHash[h], name)
+		}
+		var keys []uint
+		for h, g := range byHash {
+			if len(g) > 1 {
+				keys = append(keys, h)
+			}
+		}
+		sort.Slice(keys, func(i, j int) bool { return keys[i] < keys[j] })
+		for _, h := range keys {
+			fullGroups = append(fullGroups, byHash[h])
+		}
+		// same bucket modulo 101, different full hash; also modulo 203 for the table after one growth
+		for _, mod := range []uint{101, 203, 101 * 203} {
+			byMod := map[uint][]string{}
+			for i := 0; i < 6000; i++ {
+				name := fmt.Sprintf("MD-%07d", i)
+				m := tableHash(name) % mod
+				if len(byMod[m]) < 7 {
+					byMod[m] = append(byMod[m], name)
+				}
+			}
+			var ms []uint
+			for m, g := range byMod {
+				if len(g) >= 4 {
+					ms = append(ms, m)
+				}
+			}
+			sort.Slice(ms, func(i, j int) bool { return ms[i] < ms[j] })
+			for k, m := range ms {
+				if k < 12 {
+					modGroups = append(modGroups, byMod[m])
+				}
+			}
+		}
+	})
+	return fullGroups, modGroups
+}
+
+// ids with an identical hash (and ids sharing a bucket) must not suppress each other
+func genCollide(r *vh.Rng, seq *int) *hcase {
+	full, mods := collisions()
+	c, b := newCase(r, "collide", seq)
+	c.Level = 0
+	iv := 10
+	if r.Chance(30) {
+		iv = 60
+		b.cfg(true, 7, iv, "debug")
+	}
+	type ent struct{ m, id, msg string }
+	mk := func(id string) ent {
+		m := r.PickStr([]string{"errorf", "warnf", "infof", "error", "warn", "infoln", "printf", "println"})
+		if m == "printf" || m == "println" {
+			return ent{m, id, "explicit colliding id"}
+		}
+		return ent{m, "", id + r.PickStr([]string{"", " tail", " a longer tail than ten bytes"})} // the id is the first 10 bytes
+	}
+	emit := func(e ent) { b.log(e.m, e.id, e.msg) }
+	var groups [][]ent
+	pick := func(src [][]string, n int) {
+		for k := 0; k < n && len(src) > 0; k++ {
+			g := src[r.Intn(len(src))]
+			var es []ent
+			proto := mk(g[0])
+			for _, id := range g {
+				e := mk(id)
+				if r.Chance(70) { // same entry point for the whole group
+					e.m = proto.m
+					if e.m == "printf" || e.m == "println" {
+						e.id, e.msg = id, "explicit colliding id"
+					} else if e.id != "" {
+						e.id, e.msg = "", id
+					}
+				}
+				es = append(es, e)
+			}
+			groups = append(groups, es)
+		}
+	}
+	pick(full, 3+r.Intn(5))
+	pick(mods, 1+r.Intn(3))
+	round := func(expectNote string) {
+		for _, g := range groups {
+			for _, e := range g { // A, then the colliding B, C …: all written the first time
+				emit(e)
+				b.adv(r.Pick64([]int64{0, 0, 1, 5}))
+			}
+			for _, e := range g { // and each suppressed only by itself
+				emit(e)
+			}
+		}
+	}
+	round("first")
+	// grow the table once or twice so that the colliding entries are rehashed
+	n := r.PickInt([]int{0, 60, 90, 170, 330})
+	for k := 0; k < n; k++ {
+		b.log("debugf", "", "filler") // not rate limited
+		b.log("warnf", "", fmt.Sprintf("fl%03d%05d", r.Intn(1000), k))
+	}
+	round("inside the interval: all suppressed")
+	b.adv(int64(iv)*1000 + r.Pick64([]int64{-1, 0, 1, 500}))
+	for i := len(groups) - 1; i >= 0; i-- { // reverse order after the interval
+		g := groups[i]
+		for j := len(g) - 1; j >= 0; j-- {
+			emit(g[j])
+		}
+		for _, e := range g {
+			emit(e)
+		}
 	}
 	return c
 }
